@@ -12,7 +12,7 @@
    math.Exp returned; the uniform draw is [unitary draw]; p > u is [PrimFloat.ltb u p]. *)
 From Coq Require Import List ZArith NArith QArith Bool Floats Reals.
 From Flocq Require Import Core.
-From Crem Require Import Base.Res Dominance NdArchive NdArchiveProofs Catchment Limits Compose ComposeProofs
+From Crem Require Import Base.Res Dominance NdArchive NdArchiveProofs Catchment Limits LimitsProofs Compose ComposeProofs
   SuppRtbFloat Suppapitnarm SuppRtbFloatProofs SuppapitnarmProofs SuppapitnarmSchedule SuppapitnarmCompose.
 Import ListNotations.
 
@@ -154,6 +154,28 @@ Theorem C06_step_rule_refines_composed : forall p d m pot2 s i rtb m',
     /\ (rtb = None ->
         cm_cur m' = (if moves dd then synchronise d (cm_cur m) (e_acts (i_cand i)) else cm_cur m)).
 Proof. exact step_rule_refines_composed. Qed.
+
+(* whole iterations (move rule AND return to base) simulate the composed model: [sim] = same archive, same
+   current action set; the composed model's return-to-base selection is the index the iteration picked *)
+Theorem C06_iteration_refines_composed : forall p d m pot2 s i o s',
+  CMValid d m -> sim d s m ->
+  i_cand i = entry_of d (active_list d pot2) ->
+  iteration p s i = Ok (o, s') ->
+  exists m', cm_apply d m pot2 (coolant_accepts p i) (rtb_of i o s') = CMOk m' /\ sim d s' m'.
+Proof. exact iteration_refines_composed. Qed.
+
+(* hence the guarantees of composed_multi_objective_run carry over to the float-exact model, step by step:
+   on catchment-valued candidates (wf data set, valid potential state) the successor again simulates a valid
+   composed state, and its archive is mutually non-dominated, duplicate-free, valued by the catchment model
+   and within the limit *)
+Theorem C06_iteration_keeps_composed_guarantees : forall p d m pot2 s i o s',
+  wf_dataset d = true -> CMValid d m -> Valid d pot2 -> sim d s m ->
+  i_cand i = entry_of d (active_list d pot2) ->
+  iteration p s i = Ok (o, s') ->
+  exists m', CMValid d m' /\ sim d s' m'
+    /\ nondominated (arch s') /\ dup_free (arch s')
+    /\ forall e, In e (arch s') -> e_vec e = eval_vec d (e_acts e) /\ set_valid d (e_acts e) = true.
+Proof. exact iteration_keeps_composed_guarantees. Qed.
 
 (* ================= 2. probabilities lie in [0,1] ================= *)
 
@@ -319,6 +341,8 @@ Print Assumptions C06_archive_is_C05_run_and_invariant.
 Print Assumptions C06_move_certain_when_action_set_held_in_any_run.
 Print Assumptions C06_move_rule_is_C05_step.
 Print Assumptions C06_step_rule_refines_composed.
+Print Assumptions C06_iteration_refines_composed.
+Print Assumptions C06_iteration_keeps_composed_guarantees.
 Print Assumptions C06_acceptance_probability_in_unit_interval.
 Print Assumptions C06_acceptance_probability_in_unit_interval_bool.
 Print Assumptions C06_ideal_exp_in_unit_interval.
